@@ -1,6 +1,7 @@
 package c09
 
 import (
+	"bytes"
 	"context"
 	"crypto/ecdsa"
 	"crypto/elliptic"
@@ -578,6 +579,98 @@ func runCSMFail() FloodRec {
 	return r
 }
 
+// runUDPReclose: a server-side datagram connection is closed by the application and its peer sends another datagram
+// before the next housekeeping run ("server removes closed datagram peers on the next tick or datagram"): the closed
+// connection's done signal completes and its on-close callbacks run once - whichever of the two comes first.
+func runUDPReclose(datagramFirst bool) FloodRec {
+	r := FloodRec{Op: "udpreclose-tick", Transport: "udp", OnClose: []int{}, Busy: true}
+	if datagramFirst {
+		r.Op = "udpreclose-datagram"
+	}
+	l, err := coapNet.NewListenUDP("udp4", "127.0.0.1:0")
+	if err != nil {
+		rec.Die("listen: %v", err)
+	}
+	defer func() { _ = l.Close() }()
+	var tmu sync.Mutex
+	var ticks []func(time.Time) bool
+	counts := make([]atomic.Int64, 3)
+	first := make(chan *udpclient.Conn, 1)
+	var nconn atomic.Int64
+	sv := udp.NewServer(options.WithErrors(func(error) {}),
+		options.WithPeriodicRunner(func(f func(time.Time) bool) { tmu.Lock(); ticks = append(ticks, f); tmu.Unlock() }),
+		options.WithOnNewConn(func(cc *udpclient.Conn) {
+			if nconn.Add(1) == 1 {
+				for i := range counts {
+					i := i
+					cc.AddOnClose(func() { counts[i].Add(1) })
+				}
+				first <- cc
+			}
+		}),
+		options.WithHandlerFunc(func(w *responsewriter.ResponseWriter[*udpclient.Conn], _ *pool.Message) {
+			_ = w.SetResponse(codes.Content, message.TextPlain, bytes.NewReader([]byte("ok")))
+		}))
+	served := make(chan error, 1)
+	go func() { served <- sv.Serve(l) }()
+	saddr, _ := net.ResolveUDPAddr("udp4", l.LocalAddr().String())
+	peer, err := net.DialUDP("udp4", nil, saddr)
+	if err != nil {
+		rec.Die("dial: %v", err)
+	}
+	defer peer.Close()
+	ask := func(mid int32) bool {
+		_, _ = peer.Write(memnet.Build(message.Confirmable, int(codes.GET), mid, []byte{0xC9, byte(mid)}, message.Options{{ID: message.URIPath, Value: []byte("e")}}, nil))
+		buf := make([]byte, 1500)
+		_ = peer.SetReadDeadline(time.Now().Add(time.Second))
+		_, err := peer.Read(buf)
+		return err == nil
+	}
+	tick := func() {
+		tmu.Lock()
+		fs := append([]func(time.Time) bool(nil), ticks...)
+		tmu.Unlock()
+		for _, f := range fs {
+			f(time.Now())
+		}
+	}
+	if !ask(900) {
+		r.Busy = false
+		return r
+	}
+	var A *udpclient.Conn
+	select {
+	case A = <-first:
+	case <-time.After(time.Second):
+		r.Busy = false
+		return r
+	}
+	_ = A.Close()
+	if datagramFirst {
+		ask(901)
+		tick()
+	} else {
+		tick()
+		ask(901)
+	}
+	tick()
+	r.Done = hooks.WaitFor(wd, func() bool {
+		select {
+		case <-A.Done():
+			return true
+		default:
+			return false
+		}
+	})
+	time.Sleep(2 * time.Millisecond)
+	for i := range counts {
+		r.OnClose = append(r.OnClose, int(counts[i].Load()))
+	}
+	sv.Stop()
+	<-served
+	return r
+}
+
 func memnetBuild(k int) []byte {
 	return memnet.Build(message.NonConfirmable, int(codes.GET), int32(0x3000+k), []byte{0xF0, byte(k)}, message.Options{{ID: message.URIPath, Value: []byte("hang")}}, nil)
 }
@@ -591,6 +684,8 @@ func RunServers(out string, rounds int) {
 			w.Put(runFlood(tr, []int{1, 2, 16}[round%3]))
 		}
 		w.Put(runCSMFail())
+		w.Put(runUDPReclose(true))
+		w.Put(runUDPReclose(false))
 		w.Put(runStopEarly("tls", "handshake"))
 		w.Put(runStopEarly("tcp", "hook"))
 		for _, tr := range []string{"udp", "tcp", "dtls", "tls"} {
